@@ -238,7 +238,8 @@ def run_one(spec: dict) -> dict:
     events = []
     probes = {}
     viol = [None]
-    state = {"root": world.p("root"), "prev_root": None, "dir_env": None, "inflight": 0, "root_moved_inflight": False}
+    state = {"inflight": 0}
+    root_hist = [os.path.normpath(world.p("root"))]  # every root ever in force, in order
 
     def probe(n):
         probes[n] = probes.get(n, 0) + 1
@@ -304,7 +305,7 @@ def run_one(spec: dict) -> dict:
             if method == "POST":
                 payload = {"f": world.p("outside/o.sql")}
         state["inflight"] += 1
-        state["root_moved_inflight"] = False
+        hist_at_start = len(root_hist) - 1
         _faults.active = True
         try:
             status, body, exc = call_app(app, method, path_info, payload)
@@ -313,9 +314,11 @@ def run_one(spec: dict) -> dict:
             state["inflight"] -= 1
         roots_after = roots_in_force()
         if method == "POST":
-            allowed_roots = list({*roots_before, *roots_after})
-            if state["root_moved_inflight"] and state["prev_root"]:
-                allowed_roots.append(state["prev_root"])
+            # every root that was in force at some moment between the request's invoke and return (per request:
+            # other clients starting or finishing requests must not disturb this window)
+            during = root_hist[hist_at_start:]
+            allowed_roots = list(dict.fromkeys([*roots_before, *during, *roots_after]))
+            if len(during) > 1:
                 probe("threaded_root_move_concurrent")
             if route == "/directory" and op.get("key") is None:
                 allowed_roots.append(os.path.normpath(os.environ.get("SQLLINEAGE_DIRECTORY") or _default_directory()))
@@ -344,13 +347,11 @@ def run_one(spec: dict) -> dict:
         k = op["op"]
         if k == "root_move":
             newroot = {"root": world.p("root"), "root2": world.p("root2"), "sub": world.p("root/sub"), "W": world.W}[op["to"]]
-            state["prev_root"] = roots_in_force()[0]
-            if state["inflight"]:
-                state["root_moved_inflight"] = True
             if op.get("relative"):
                 app.root_path = Path(os.path.relpath(newroot, os.getcwd()))
             else:
                 app.root_path = Path(newroot)
+            root_hist.append(os.path.normpath(newroot))
             probe("root_moved")
             events.append(["admin", "root_move", op["to"], bool(op.get("relative"))])
         elif k == "chdir":
